@@ -20,8 +20,8 @@ impl Property for C06 {
     }
     fn cases(&self, tier: Tier) -> u64 {
         match tier {
-            Tier::Quick => 8000,
-            Tier::Thorough => 16 * 50000,
+            Tier::Quick => 64000,
+            Tier::Thorough => 64000 * 100,
         }
     }
     fn stream_lens(&self) -> [usize; 3] {
